@@ -394,7 +394,7 @@ func gen(t *rapid.T) Case {
 
 func TestHookFailures(t *testing.T) {
 	defer simworld.Discard()
-	vh.Check(t, prop, gen, run)
+	vh.Check(t, prop, gen, vh.Confirmed(run))
 }
 
 func simultaneousCase(n int) Case {
@@ -410,16 +410,16 @@ func TestFixed(t *testing.T) {
 	for _, T := range []string{"START_ACTIVITY", "STOP_ACTIVITY", "RESET", "CONFIGURE"} {
 		for _, m := range []int{0, 1, 3, 4} {
 			vh.Fixed(t, prop, fmt.Sprintf("%s-critical-call-fails-at-moment-%d", T, m), Case{T: T, NTasks: 1, Hooks: []H{
-				{"call", 0, -1, false, ""}, {"call", m, 0, true, "error"}, {"call", m, 1, true, ""}, {"call", 4, 2, false, "error"}}}, run)
+				{"call", 0, -1, false, ""}, {"call", m, 0, true, "error"}, {"call", m, 1, true, ""}, {"call", 4, 2, false, "error"}}}, vh.Confirmed(run))
 		}
 	}
 	vh.Fixed(t, prop, "noncritical-everything-fails", Case{T: "START_ACTIVITY", NTasks: 2, Hooks: []H{
-		{"call", 0, -1, false, "error"}, {"task", 0, 0, false, "exit"}, {"call", 1, 0, false, "timeout"}, {"task", 3, 1, false, "never"}, {"task", 4, 0, false, "involuntary"}}}, run)
-	vh.Fixed(t, prop, "critical-hook-task-exit", Case{T: "START_ACTIVITY", NTasks: 1, Hooks: []H{{"task", 0, 0, true, "exit"}, {"call", 1, 0, false, ""}}}, run)
-	vh.Fixed(t, prop, "critical-hook-task-timeout-after", Case{T: "STOP_ACTIVITY", NTasks: 1, Hooks: []H{{"task", 4, 0, true, "never"}, {"call", 4, 1, false, ""}}}, run)
+		{"call", 0, -1, false, "error"}, {"task", 0, 0, false, "exit"}, {"call", 1, 0, false, "timeout"}, {"task", 3, 1, false, "never"}, {"task", 4, 0, false, "involuntary"}}}, vh.Confirmed(run))
+	vh.Fixed(t, prop, "critical-hook-task-exit", Case{T: "START_ACTIVITY", NTasks: 1, Hooks: []H{{"task", 0, 0, true, "exit"}, {"call", 1, 0, false, ""}}}, vh.Confirmed(run))
+	vh.Fixed(t, prop, "critical-hook-task-timeout-after", Case{T: "STOP_ACTIVITY", NTasks: 1, Hooks: []H{{"task", 4, 0, true, "never"}, {"call", 4, 1, false, ""}}}, vh.Confirmed(run))
 	if !vh.Open("KF-C09-awaitall-concurrent-map") {
 		for rep := 0; rep < 6; rep++ {
-			vh.Fixed(t, prop, fmt.Sprintf("six-simultaneous-failures-%d", rep), simultaneousCase(6), run)
+			vh.Fixed(t, prop, fmt.Sprintf("six-simultaneous-failures-%d", rep), simultaneousCase(6), vh.Confirmed(run))
 		}
 	}
 }
